@@ -1,4 +1,5 @@
 import PppModel.Lemmas.V1Term
+import PppModel.Lemmas.V1Window
 
 /-!
 # C18 — the v1 verdict is final once the first line break or 107 bytes have been seen
@@ -109,5 +110,293 @@ theorem frozen_long_bytes (x t : B) (h : firstCR x = none) (hl : 107 ≤ x.lengt
 /-- Non-vacuity: three frozen inputs of the kinds the property names. -/
 example : Auto.isIncompleteV1 (parseBytes [0x50, 0x0D, 0x50]) = false := by decide
 example : parseBytes [0x50, 0x0D, 0x50] = .error (.parse .invalidPrefix) := by decide
+
+/-! ## The buffer bound: 108 bytes, not 107
+
+The property text says "a receiver never has to buffer more than 107 bytes".  The exact bound is
+**108**: every input of at least 108 bytes has a final verdict (`complete_at_108*`), and there are
+107-byte inputs that are still reported incomplete (`w107`); they are exactly (some of) the inputs
+whose first CR is their last byte (`incomplete_107_bytes`), and every extension of such an input
+is terminal (`w107_extension_bytes`). -/
+
+/-- **C18 (buffer bound, bytes).** Clause "a receiver never has to buffer more than N bytes":
+with N = 108 every input has a final verdict through `TryFrom<&[u8]>`. -/
+theorem complete_at_108 (x : B) (h : 108 ≤ x.length) : Auto.isIncompleteV1 (parseBytes x) = false := by
+  cases hcr : firstCR x with
+  | none => exact frozen_complete_bytes x (Or.inr ⟨hcr, by omega⟩)
+  | some c =>
+    by_cases hc : c + 1 < x.length
+    · exact frozen_complete_bytes x (Or.inl ⟨c, hcr, hc⟩)
+    · rcases parseBytes_window_long (windowLength_cr_last hcr hc) (by omega) with h | h <;> rw [h] <;> rfl
+
+/-- **C18 (buffer bound, text).** The same through `TryFrom<&str>` (no validity hypothesis is needed). -/
+theorem complete_at_108_str (x : B) (h : 108 ≤ x.length) : Auto.isIncompleteV1Str (parseStr x) = false := by
+  cases hcr : firstCR x with
+  | none => exact frozen_complete_str x (Or.inr ⟨hcr, by omega⟩)
+  | some c =>
+    by_cases hc : c + 1 < x.length
+    · exact frozen_complete_str x (Or.inl ⟨c, hcr, hc⟩)
+    · rcases parseStr_window_long (windowLength_cr_last hcr hc) (by omega) with h | h <;> rw [h] <;> rfl
+
+/-- **C18 (buffer bound, auto-detecting parser).** On at least 108 bytes `HeaderResult::parse` is
+incomplete exactly when the version-2 parser is: version 1 never contributes an incomplete verdict. -/
+theorem complete_at_108_auto (x : B) (h : 108 ≤ x.length) :
+    (Auto.parse x).isIncomplete = Auto.isIncompleteV2 (V2.parse x) := by
+  simp only [Auto.parse]
+  split
+  · rename_i hc
+    simp only [Auto.isCompleteV2, Bool.and_eq_true, Bool.not_eq_true'] at hc
+    simp only [Auto.HeaderResult.isIncomplete, complete_at_108 x h, hc.1]
+  · rfl
+
+/-- When the version-2 parser gives a terminal error on at least 108 bytes, the auto-detecting
+parser returns the version-1 result and that result is final. -/
+theorem complete_at_108_auto_v1 (x : B) (h : 108 ≤ x.length)
+    (h2 : Auto.isCompleteV2 (V2.parse x) = true) (he : Auto.isErr (V2.parse x) = true) :
+    Auto.parse x = .v1 (parseBytes x) ∧ (Auto.parse x).isIncomplete = false := by
+  have : Auto.parse x = .v1 (parseBytes x) := by simp [Auto.parse, h2, he]
+  exact ⟨this, by rw [this]; exact complete_at_108 x h⟩
+
+/-- An incomplete auto-detected verdict on at least 108 bytes is the version-2 parser's. -/
+theorem auto_incomplete_at_108 (x : B) (h : 108 ≤ x.length) (hi : (Auto.parse x).isIncomplete = true) :
+    Auto.parse x = .v2 (V2.parse x) ∧ Auto.isIncompleteV2 (V2.parse x) = true := by
+  have h2 : Auto.isIncompleteV2 (V2.parse x) = true := by rw [← complete_at_108_auto x h]; exact hi
+  exact ⟨by simp [Auto.parse, Auto.isCompleteV2, h2], h2⟩
+
+/-- `PROXY UNKNOWN ` (14 bytes). -/
+def proxyUnknownSp : B :=
+  [0x50, 0x52, 0x4F, 0x58, 0x59, 0x20, 0x55, 0x4E, 0x4B, 0x4E, 0x4F, 0x57, 0x4E, 0x20]
+
+/-- The 107-byte sharpness witness `"PROXY UNKNOWN " ++ 92 × 'a' ++ "\r"`: its first CR is its
+last byte. -/
+def w107 : B := proxyUnknownSp ++ List.replicate 92 0x61 ++ [CR]
+
+theorem w107_length : w107.length = 107 := by decide +kernel
+theorem w107_firstCR : firstCR w107 = some 106 := by decide +kernel
+theorem w107_valid : Utf8.valid w107 = true := by decide +kernel
+
+/-- The witness is outside the property's premise: neither disjunct of `frozen` holds. -/
+theorem w107_not_frozen : ¬ frozen w107 := by
+  rintro (⟨c, h1, h2⟩ | ⟨h1, -⟩)
+  · rw [w107_firstCR] at h1; cases h1; rw [w107_length] at h2; omega
+  · rw [w107_firstCR] at h1; cases h1
+
+/-- **Sharpness (bytes).** On the 107-byte witness `TryFrom<&[u8]>` answers `MissingNewLine`,
+which is flagged incomplete. -/
+theorem w107_bytes : parseBytes w107 = .error (.parse .missingNewLine) := by decide +kernel
+
+/-- **Sharpness (text).** The same through `TryFrom<&str>`. -/
+theorem w107_str : parseStr w107 = .error .missingNewLine := by decide +kernel
+
+/-- **Sharpness of 108 (bytes).** 107 bytes do not always suffice: the clause "never more than
+107 bytes" of the property text is off by one. -/
+theorem sharp_107_bytes : ∃ x : B, x.length = 107 ∧ Auto.isIncompleteV1 (parseBytes x) = true :=
+  ⟨w107, w107_length, by rw [w107_bytes]; rfl⟩
+
+/-- **Sharpness of 108 (text).** -/
+theorem sharp_107_str :
+    ∃ x : B, x.length = 107 ∧ Utf8.valid x = true ∧ Auto.isIncompleteV1Str (parseStr x) = true :=
+  ⟨w107, w107_length, w107_valid, by rw [w107_str]; rfl⟩
+
+/-- The auto-detecting parser is incomplete on the 107-byte witness as well, through version 1. -/
+theorem w107_auto : Auto.parse w107 = .v1 (.error (.parse .missingNewLine)) := by decide +kernel
+
+/-- Non-vacuity of `complete_at_108*`: the witness followed by LF (108 bytes) is final through every
+entry point, and the hypotheses of `complete_at_108_auto_v1` hold of it. -/
+example : Auto.isIncompleteV1 (parseBytes (w107 ++ [LF])) = false :=
+  complete_at_108 _ (by decide +kernel)
+example : 108 ≤ (w107 ++ [LF]).length ∧ Auto.isCompleteV2 (V2.parse (w107 ++ [LF])) = true ∧
+    Auto.isErr (V2.parse (w107 ++ [LF])) = true := by decide +kernel
+/-- Non-vacuity of `auto_incomplete_at_108`: a 108-byte version-2 prefix that declares 65535 more bytes. -/
+example : 108 ≤ (([0x0D, 0x0A, 0x0D, 0x0A, 0x00, 0x0D, 0x0A, 0x51, 0x55, 0x49, 0x54, 0x0A, 0x21, 0x11, 0xFF, 0xFF] : B) ++
+      List.replicate 92 0).length ∧
+    (Auto.parse ([0x0D, 0x0A, 0x0D, 0x0A, 0x00, 0x0D, 0x0A, 0x51, 0x55, 0x49, 0x54, 0x0A, 0x21, 0x11, 0xFF, 0xFF] ++
+      List.replicate 92 0)).isIncomplete = true := by decide +kernel
+
+/-- **The witness is doomed (bytes).** Every proper extension of the 107-byte witness is a terminal
+error, `HeaderTooLong` or `InvalidUtf8`: the "incomplete" verdict on `w107` can never turn into a
+success. -/
+theorem w107_extension_bytes (t : B) (ht : t ≠ []) :
+    (parseBytes (w107 ++ t) = .error (.parse .headerTooLong) ∨ parseBytes (w107 ++ t) = .error .invalidUtf8) ∧
+      Auto.isIncompleteV1 (parseBytes (w107 ++ t)) = false := by
+  have hl : 106 + 1 < (w107 ++ t).length := by
+    cases t with
+    | nil => exact absurd rfl ht
+    | cons b t' => simp only [List.length_append, w107_length, List.length_cons]; omega
+  have := parseBytes_cr_late (firstCR_append_of_some t w107_firstCR) (Nat.le_refl _) hl
+  refine ⟨this, ?_⟩
+  rcases this with h | h <;> rw [h] <;> rfl
+
+/-- **The witness is doomed (text).** Every proper extension is `HeaderTooLong` or `InvalidSuffix`. -/
+theorem w107_extension_str (t : B) (ht : t ≠ []) :
+    (parseStr (w107 ++ t) = .error .headerTooLong ∨ parseStr (w107 ++ t) = .error .invalidSuffix) ∧
+      Auto.isIncompleteV1Str (parseStr (w107 ++ t)) = false := by
+  have hl : 106 + 1 < (w107 ++ t).length := by
+    cases t with
+    | nil => exact absurd rfl ht
+    | cons b t' => simp only [List.length_append, w107_length, List.length_cons]; omega
+  have := parseStr_cr_late (firstCR_append_of_some t w107_firstCR) (Nat.le_refl _) hl
+  refine ⟨this, ?_⟩
+  rcases this with h | h <;> rw [h] <;> rfl
+
+/-- Both outcomes of `w107_extension_bytes` occur. -/
+example : parseBytes (w107 ++ [LF]) = .error (.parse .headerTooLong) := by decide +kernel
+example : parseBytes (w107 ++ [0xFF]) = .error .invalidUtf8 := by decide +kernel
+example : parseStr (w107 ++ [LF]) = .error .headerTooLong := by decide +kernel
+
+/-- **Which inputs of 107 bytes or more are still incomplete (bytes).** Only inputs of exactly
+107 bytes whose first CR is the last byte. -/
+theorem incomplete_ge_107_bytes (x : B) (hl : 107 ≤ x.length)
+    (hi : Auto.isIncompleteV1 (parseBytes x) = true) : x.length = 107 ∧ firstCR x = some 106 := by
+  have hnf : ¬ frozen x := fun hf => by rw [frozen_complete_bytes x hf] at hi; cases hi
+  have h108 : ¬ 108 ≤ x.length := fun h => by rw [complete_at_108 x h] at hi; cases hi
+  have hlen : x.length = 107 := by omega
+  refine ⟨hlen, ?_⟩
+  cases hcr : firstCR x with
+  | none => exact absurd (Or.inr ⟨hcr, hl⟩) hnf
+  | some c =>
+    have h1 := firstCR_lt hcr
+    have h2 : ¬ c + 1 < x.length := fun h => hnf (Or.inl ⟨c, hcr, h⟩)
+    congr 1; omega
+
+/-- **C18 (the corner "107 bytes, first CR last", bytes).** A 107-byte input on which
+`TryFrom<&[u8]>` is still incomplete has its first CR as its last byte. -/
+theorem incomplete_107_bytes (x : B) (hl : x.length = 107)
+    (hi : Auto.isIncompleteV1 (parseBytes x) = true) : firstCR x = some 106 :=
+  (incomplete_ge_107_bytes x (by omega) hi).2
+
+/-- **Which inputs of 107 bytes or more are still incomplete (text).** -/
+theorem incomplete_ge_107_str (x : B) (hl : 107 ≤ x.length)
+    (hi : Auto.isIncompleteV1Str (parseStr x) = true) : x.length = 107 ∧ firstCR x = some 106 := by
+  have hnf : ¬ frozen x := fun hf => by rw [frozen_complete_str x hf] at hi; cases hi
+  have h108 : ¬ 108 ≤ x.length := fun h => by rw [complete_at_108_str x h] at hi; cases hi
+  have hlen : x.length = 107 := by omega
+  refine ⟨hlen, ?_⟩
+  cases hcr : firstCR x with
+  | none => exact absurd (Or.inr ⟨hcr, hl⟩) hnf
+  | some c =>
+    have h1 := firstCR_lt hcr
+    have h2 : ¬ c + 1 < x.length := fun h => hnf (Or.inl ⟨c, hcr, h⟩)
+    congr 1; omega
+
+/-- **C18 (the corner "107 bytes, first CR last", text).** -/
+theorem incomplete_107_str (x : B) (hl : x.length = 107)
+    (hi : Auto.isIncompleteV1Str (parseStr x) = true) : firstCR x = some 106 :=
+  (incomplete_ge_107_str x (by omega) hi).2
+
+/-- Non-vacuity of `incomplete_107_bytes` / `incomplete_107_str`. -/
+example : w107.length = 107 ∧ Auto.isIncompleteV1 (parseBytes w107) = true ∧
+    Auto.isIncompleteV1Str (parseStr w107) = true := by decide +kernel
+
+/-! ## Stability through the text entry point, and the outcomes without CR -/
+
+/-- **C18 ("no later byte can change it", text).** After the first CR and one more byte the
+result of `TryFrom<&str>` is the same whatever follows (both the input and its extension being
+strings). -/
+theorem frozen_stable_str (x t : B) (c : Nat) (h : firstCR x = some c) (hc : c + 1 < x.length)
+    (hv : Utf8.valid (x ++ t) = true) (hx : Utf8.valid x = true) : parseStr (x ++ t) = parseStr x := by
+  obtain ⟨h1, h2⟩ := window_append_frozen t h hc
+  have hb : Utf8.isCharBoundary (x ++ t) (c + 2) = Utf8.isCharBoundary x (c + 2) := by
+    by_cases hlt : c + 2 < x.length
+    · exact Utf8.isCharBoundary_append_lt x t _ hlt
+    · have he : c + 2 = x.length := by omega
+      rw [he, Utf8.isCharBoundary_length,
+        ← Utf8.valid_take_iff_boundary (x ++ t) hv x.length (by simp), List.take_left' rfl, hx]
+  simp only [parseStr, h1, h2, windowLength_frozen_cr h hc, hb]
+
+/-- Non-vacuity of `frozen_stable_str`: `"PROXY UNKNOWN\r\n"` followed by `"é"`. -/
+example : parseStr ([0x50, 0x52, 0x4F, 0x58, 0x59, 0x20, 0x55, 0x4E, 0x4B, 0x4E, 0x4F, 0x57, 0x4E, 0x0D, 0x0A] ++ [0xC3, 0xA9]) =
+    parseStr [0x50, 0x52, 0x4F, 0x58, 0x59, 0x20, 0x55, 0x4E, 0x4B, 0x4E, 0x4F, 0x57, 0x4E, 0x0D, 0x0A] :=
+  frozen_stable_str _ _ 13 (by decide +kernel) (by decide +kernel) (by decide +kernel) (by decide +kernel)
+
+/-- Without `hx` the statement fails: `x = "P\r" ++ [0xC3]` (frozen, not a string), `t = [0xA9]`. -/
+example : parseStr ([0x50, 0x0D, 0xC3] ++ [0xA9]) ≠ parseStr [0x50, 0x0D, 0xC3] := by decide +kernel
+
+/-- **C18 (107 bytes without CR, bytes): the exact set of outcomes.** Every continuation is
+`HeaderTooLong` or `InvalidUtf8`; only the *class* (terminal) is stable, the error itself may
+flip between the two (examples below). -/
+theorem frozen_long_bytes_cases (x t : B) (h : firstCR x = none) (hl : 107 ≤ x.length) :
+    parseBytes (x ++ t) = .error (.parse .headerTooLong) ∨ parseBytes (x ++ t) = .error .invalidUtf8 := by
+  rcases windowLength_append_long (t := t) h hl with hw | ⟨n, hw, hn⟩
+  · left; simp only [parseBytes, hw]
+  · exact parseBytes_window_long hw hn
+
+/-- **C18 (107 bytes without CR, text).** Every continuation is `HeaderTooLong` or `InvalidSuffix`. -/
+theorem frozen_long_str (x t : B) (h : firstCR x = none) (hl : 107 ≤ x.length) :
+    parseStr (x ++ t) = .error .headerTooLong ∨ parseStr (x ++ t) = .error .invalidSuffix := by
+  rcases windowLength_append_long (t := t) h hl with hw | ⟨n, hw, hn⟩
+  · left; simp only [parseStr, hw]
+  · exact parseStr_window_long hw hn
+
+/-- The error is not stable in the CR-free case: 107 × `0xFF` is `HeaderTooLong`, followed by CR LF it
+is `InvalidUtf8`; 107 × 'a' is `HeaderTooLong`, followed by CR and `"€"` it is `InvalidUtf8` from
+bytes and `InvalidSuffix` from text (the window cuts the `€`). -/
+example : parseBytes (List.replicate 107 0xFF) = .error (.parse .headerTooLong) := by decide +kernel
+example : parseBytes (List.replicate 107 0xFF ++ [CR, LF]) = .error .invalidUtf8 := by decide +kernel
+example : parseStr (List.replicate 107 0x61) = .error .headerTooLong := by decide +kernel
+example : Utf8.valid (List.replicate 107 0x61 ++ [CR, 0xE2, 0x82, 0xAC]) = true ∧
+    parseBytes (List.replicate 107 0x61 ++ [CR, 0xE2, 0x82, 0xAC]) = .error .invalidUtf8 ∧
+    parseStr (List.replicate 107 0x61 ++ [CR, 0xE2, 0x82, 0xAC]) = .error .invalidSuffix := by decide +kernel
+example : firstCR (List.replicate 107 (0x61 : UInt8)) = none ∧ 107 ≤ (List.replicate 107 (0x61 : UInt8)).length := by
+  decide +kernel
+
+/-! ## The three shapes named in the property's quantifier -/
+
+/-- Shape 1: a CRLF-terminated TCP4 line with too few fields, `"PROXY TCP4 1.2.3.4\r\n"`: frozen,
+and a terminal error (the absent fields count as empty). -/
+example : parseBytes [0x50, 0x52, 0x4F, 0x58, 0x59, 0x20, 0x54, 0x43, 0x50, 0x34, 0x20,
+    0x31, 0x2E, 0x32, 0x2E, 0x33, 0x2E, 0x34, 0x0D, 0x0A] = .error (.parse .invalidDestinationAddress) := by
+  decide +kernel
+example : parseStr [0x50, 0x52, 0x4F, 0x58, 0x59, 0x20, 0x54, 0x43, 0x50, 0x34, 0x20,
+    0x31, 0x2E, 0x32, 0x2E, 0x33, 0x2E, 0x34, 0x0D, 0x0A] = .error .invalidDestinationAddress := by
+  decide +kernel
+example : frozen [0x50, 0x52, 0x4F, 0x58, 0x59, 0x20, 0x54, 0x43, 0x50, 0x34, 0x20,
+    0x31, 0x2E, 0x32, 0x2E, 0x33, 0x2E, 0x34, 0x0D, 0x0A] := Or.inl ⟨18, by decide +kernel, by decide⟩
+/-- `"PROXY TCP4\r\n"` and `"PROXY TCP6 ::1 ::1 1\r\n"`: terminal as well. -/
+example : parseBytes [0x50, 0x52, 0x4F, 0x58, 0x59, 0x20, 0x54, 0x43, 0x50, 0x34, 0x0D, 0x0A] =
+    .error (.parse .invalidSourceAddress) := by decide +kernel
+example : parseBytes [0x50, 0x52, 0x4F, 0x58, 0x59, 0x20, 0x54, 0x43, 0x50, 0x36, 0x20, 0x3A, 0x3A, 0x31, 0x20,
+    0x3A, 0x3A, 0x31, 0x20, 0x31, 0x0D, 0x0A] = .error (.parse (.invalidDestinationPort (some .invalidDigit))) := by
+  decide +kernel
+/-- The same line without its terminator is (rightly) incomplete: `"PROXY TCP4 1.2.3.4"`. -/
+example : parseBytes [0x50, 0x52, 0x4F, 0x58, 0x59, 0x20, 0x54, 0x43, 0x50, 0x34, 0x20,
+    0x31, 0x2E, 0x32, 0x2E, 0x33, 0x2E, 0x34] = .error (.parse .missingDestinationAddress) := by decide +kernel
+
+/-- Shape 2: `UNKNOWN` with a CR followed by a byte other than LF, `"PROXY UNKNOWN\rX"`: frozen,
+terminal `InvalidSuffix`. -/
+example : parseBytes [0x50, 0x52, 0x4F, 0x58, 0x59, 0x20, 0x55, 0x4E, 0x4B, 0x4E, 0x4F, 0x57, 0x4E, 0x0D, 0x58] =
+    .error (.parse .invalidSuffix) := by decide +kernel
+example : parseStr [0x50, 0x52, 0x4F, 0x58, 0x59, 0x20, 0x55, 0x4E, 0x4B, 0x4E, 0x4F, 0x57, 0x4E, 0x0D, 0x58] =
+    .error .invalidSuffix := by decide +kernel
+example : frozen [0x50, 0x52, 0x4F, 0x58, 0x59, 0x20, 0x55, 0x4E, 0x4B, 0x4E, 0x4F, 0x57, 0x4E, 0x0D, 0x58] :=
+  Or.inl ⟨13, by decide +kernel, by decide⟩
+/-- With only the CR (`"PROXY UNKNOWN\r"`) the input is not frozen and is incomplete. -/
+example : parseBytes [0x50, 0x52, 0x4F, 0x58, 0x59, 0x20, 0x55, 0x4E, 0x4B, 0x4E, 0x4F, 0x57, 0x4E, 0x0D] =
+    .error (.parse .missingNewLine) := by decide +kernel
+
+/-- Shape 3: CR-free inputs `"PROXY UNKNOWN " ++ k × 'a'` of 106 / 107 / 108 bytes.
+106 bytes: **not** frozen, and incomplete (`MissingNewLine`). -/
+example : (proxyUnknownSp ++ List.replicate 92 0x61).length = 106 ∧
+    firstCR (proxyUnknownSp ++ List.replicate 92 0x61) = none ∧
+    parseBytes (proxyUnknownSp ++ List.replicate 92 0x61) = .error (.parse .missingNewLine) ∧
+    parseStr (proxyUnknownSp ++ List.replicate 92 0x61) = .error .missingNewLine := by decide +kernel
+example : ¬ frozen (proxyUnknownSp ++ List.replicate 92 0x61) := by
+  rintro (⟨c, h1, -⟩ | ⟨-, h2⟩)
+  · have : firstCR (proxyUnknownSp ++ List.replicate 92 0x61) = none := by decide +kernel
+    rw [this] at h1; cases h1
+  · have : (proxyUnknownSp ++ List.replicate 92 0x61).length = 106 := by decide +kernel
+    omega
+/-- 107 bytes without CR: frozen, terminal `HeaderTooLong`. -/
+example : (proxyUnknownSp ++ List.replicate 93 0x61).length = 107 ∧
+    firstCR (proxyUnknownSp ++ List.replicate 93 0x61) = none ∧
+    parseBytes (proxyUnknownSp ++ List.replicate 93 0x61) = .error (.parse .headerTooLong) ∧
+    parseStr (proxyUnknownSp ++ List.replicate 93 0x61) = .error .headerTooLong := by decide +kernel
+example : frozen (proxyUnknownSp ++ List.replicate 93 0x61) := Or.inr (by decide +kernel)
+/-- 108 bytes without CR: frozen, terminal `HeaderTooLong`. -/
+example : (proxyUnknownSp ++ List.replicate 94 0x61).length = 108 ∧
+    firstCR (proxyUnknownSp ++ List.replicate 94 0x61) = none ∧
+    parseBytes (proxyUnknownSp ++ List.replicate 94 0x61) = .error (.parse .headerTooLong) ∧
+    parseStr (proxyUnknownSp ++ List.replicate 94 0x61) = .error .headerTooLong := by decide +kernel
+example : frozen (proxyUnknownSp ++ List.replicate 94 0x61) := Or.inr (by decide +kernel)
 
 end C18
